@@ -830,9 +830,21 @@ func genBig(r *lib.RNG, w *bufio.Writer, seed uint64, n int, half bool) {
 				small()
 			}
 		}
+		// live records BEHIND the space that is about to die: compaction moves them; replacing one
+		// of them in the very store that compacts exercises "old record freed after it moved"
+		behind := r.Chance(2, 3)
+		if behind {
+			fmt.Fprintf(w, "store 6 5 c:616263:7: s:63:2500:a\n")
+			fmt.Fprintf(w, "store 7 9 c:r%dx%d:9:\n", r.Intn(256), 3000+r.Intn(5000))
+		}
 		fmt.Fprintln(w, "inval 0 1 2")
 		if r.Chance(1, 3) {
 			fmt.Fprintln(w, "reopen") // compaction at load instead
+		}
+		if behind {
+			fmt.Fprintf(w, "store 6 5 c:6465:7: s:66:2500:b\n")
+			fmt.Fprintln(w, "obs")
+			fmt.Fprintln(w, "read 7")
 		}
 		small()
 		fmt.Fprintln(w, "obs")
